@@ -56,8 +56,8 @@ class C09(Prop):
                    'the verdict']
     quick_examples = 400
     thorough_examples = 2500
-    floors = {'failing_unfinished_at_flush': 0.08, 'three_complete_during_flush': 0.1, 'after_close': 0.2,
-              'real_threads': 0.08}
+    floors = {'failing_unfinished_at_flush': 0.08, 'three_complete_during_flush': 0.06, 'after_close': 0.12,
+              'real_threads': 0.05, 'backlog': 0.05, 'backlog_1000': 0.01}
 
     def strategy(self, tier):
         outcome = st.sampled_from(['ok', 'ok', 'convert_fail', 'send_fail', 'convert_none'])
@@ -77,13 +77,22 @@ class C09(Prop):
             'release_before_flush': st.integers(0, 5),
             'order': st.lists(st.integers(0, 10), min_size=5, max_size=5),
         })
-        return st.one_of(sim, sim, sim, sim, real)
+        # a backlog: many snapshots handed over while no worker makes progress (a collector that is slow or down)
+        burst = fd({
+            'mode': st.just('burst'),
+            'n': st.one_of(st.integers(1, 60), st.integers(1, 60), st.integers(61, 1500),
+                           st.sampled_from([255, 256, 1000, 1001, 1024, 2048, 4096])),
+            'fail_every': st.sampled_from([0, 0, 3, 7]),
+        })
+        return st.one_of(sim, sim, sim, sim, sim, sim, real, burst)
 
     def run_case(self, recipe):
         lab.reset_world()
         try:
             if recipe['mode'] == 'sim':
                 return self.case_sim(recipe)
+            if recipe['mode'] == 'burst':
+                return self.case_burst(recipe)
             return self.case_real(recipe)
         finally:
             deep.push.convert_snapshot = _real_convert
@@ -232,6 +241,48 @@ class C09(Prop):
             if ran_generic.count(i) != 1:
                 out.violate('generic task ran %d times' % ran_generic.count(i))
                 break
+        return out
+
+    def case_burst(self, recipe):
+        out = Outcome()
+        pool = sched.SimPool()
+        th, ps, channel, outcomes, sent, gates = self._world(pool, None)
+        pusher = threading.current_thread().name
+        n = recipe['n']
+        out.cls('backlog')
+        if n >= 1000:
+            out.cls('backlog_1000')
+        out.nontrivial = n >= 10
+        ids = []
+        for i in range(n):
+            s = mk_snapshot()
+            o = 'send_fail' if recipe['fail_every'] and i % recipe['fail_every'] == 0 else 'ok'
+            outcomes[s.id] = o
+            ids.append((s.id, o))
+            try:
+                ps.push_snapshot(s)
+            except BaseException as e:      # noqa
+                out.violate('push_snapshot raised %s' % type(e).__name__, {'backlog': i})
+                return out
+            if channel.calls or len(pool.tasks) != i + 1:
+                out.violate('push_snapshot did not hand the work to the background executor (sent inline?)',
+                            {'backlog': i, 'calls_during_push': len(channel.calls)})
+                return out
+        pool.drain()
+        try:
+            th.flush()
+        except BaseException as e:      # noqa
+            out.violate('flush raised %s' % type(e).__name__)
+        for sid, o in ids:
+            names = sent.get(sid, [])
+            if len(names) != 1:
+                out.violate('snapshot sent %d times instead of 1 (%s)' % (len(names), o))
+                break
+            if names[0] == pusher:
+                out.violate('snapshot sent on the thread that pushed it')
+                break
+        if len(dict.keys(th._pending)) != 0:
+            out.violate('entries left in the pending table after a completed flush')
         return out
 
     def case_real(self, recipe):
